@@ -10,6 +10,14 @@ NOT_BUILT = "rules designed (DESIGN.md sections 3-4) but not built yet; not clai
 
 # property -> (technique, level text, level note, design ref)
 CLAIMED = {
+ "C01": ("symbolic bit-vector evaluation of the opcode constructors and decoders; table/switch exhaustiveness and same-name agreement between token, operator, opcode and runtime-function tables read from the SSA of the package initialisers and the interpreter loop; implementer sets from go/types; must-pass-through checks for scope-exit clears; def-use provenance of private registers",
+         "Structural agreements between the stages of the compile pipeline (encoder/decoder bit layout, operator tables, dispatch exhaustiveness, nil-continuation returns, scope-exit clears, private registers): each is a necessary condition — breaking one miscompiles some program. Agreement of the implemented semantics with the manual over all programs is not decided.",
+         "Trusted: go/ssa, frozen operator tables confirmed by reading. Not decided: behavioural equivalence with the manual (values, evaluation order, call protocol, register allocation in general, jump resolution).",
+         "DESIGN.md 3 (R-SIBLING, R-SCOPE, R-NILNIL), 4 (C01)"),
+ "C12": ("comparison of the scanner/parser/operator tables (read from package-initialiser SSA and declared constants) with reference tables transcribed from the manual; comparison-shape analysis of the precedence-climbing loop; must-edge length proofs for literal indexing; nearest-failed-type-test analysis of syntax-error sites",
+         "Table-shaped and shape-visible part of the front end: reserved words, symbols, token-to-operator maps, all 300 pairwise precedences, the two right-associative exceptions, in-range literal indexing, and error sites blaming the token just examined. Acceptance of the whole grammar and literal denotations are not decided.",
+         "Trusted: go/ssa; reference tables transcribed from the manual §3.1, §3.4.8. Not decided: grammar acceptance, numeral and escape denotation, spelling invariance.",
+         "DESIGN.md 3 (R-SIBLING precedence part, R-LITERAL, R-BLAME), 4 (C12)"),
  "C20": ("who-may-write analysis of package-level variables on SSA: direct stores, stores through global-rooted address chains, interprocedural mod-ref summaries ('writes through parameter p') to a fixpoint, frozen list of process-wide standard-library calls",
          "Structural content of runtime isolation: any run-time write to package-level state (directly, through a pointer held in it, or by a callee) is shared between runtimes and is reported; so are calls into process-wide standard-library state. Behavioural equality of interleaved runs is not decided.",
          "Trusted: go/ssa, static-call mod-ref summaries. Not decided: races on state reachable only through a shared *Runtime; behavioural equality.",
